@@ -751,3 +751,30 @@ package core
 //@   ensures hash_lookup_deleted: arg1 == nil ==> calls_BucketDelete == old(calls_BucketDelete) + 1
 //@   ensures l1_message_lookup_deleted: arg1 == nil && result && istype(arg0, *L1HandlerTransaction) ==> calls_DeleteL1Lookup == old(calls_DeleteL1Lookup) + 1
 //@   ensures read_error_stops: arg1 != nil ==> !result && calls_BucketDelete == old(calls_BucketDelete)
+
+// ---- a v3 resource bound is committed to by the transaction hash in full (C02) ----------------------
+// The pre-image word of a bound is 0 | resource name | max_amount (8 bytes) | max_price_per_unit. The
+// price is a uint128 in the protocol but a full felt in the node (stored, transported, never range
+// checked): the word either carries every byte of it or is built for a price whose upper 16 bytes are
+// zero - otherwise bits of a committed field would not take part in the transaction hash (defect F22,
+// fixed: the word took bytes [16:32] unconditionally, so max_price_per_unit + k*2^128 hashed like the
+// genuine transaction).
+//@ extern func slices.Concat
+//@ extern func encoding/binary.(bigEndian).PutUint64
+//@   modifies b[0..8]
+//@ extern func github.com/NethermindEth/juno/core/felt.(*Felt).Bytes
+//@ extern func github.com/NethermindEth/juno/core.(Resource).String
+//@ func fitsUint128
+//@   props C02
+//@   arith int
+//@   requires value != nil
+//@   loop 1: invariant zero_so_far: -1 <= rangeindex && rangeindex < 16 && (forall k int :: 0 <= k && k <= rangeindex ==> (*value)[k] == 0)
+//@   ensures exactly_when_the_upper_half_is_zero: result <==> (forall k int :: 0 <= k && k < 16 ==> (*value)[k] == 0)
+//@ func (ResourceBounds).Bytes
+//@   props C02
+//@   arith int
+//@   nosafe
+//@   coretypes
+//@   requires rb.MaxPricePerUnit != nil
+//@   callsite Concat@*: four_parts_amount_in_eight_bytes: len($0) == 4 && len($0[0]) == 1 && len($0[2]) == 8 && len($0[3]) <= 32
+//@   callsite Concat@*: every_bit_of_the_price_committed: len($0) == 4 && (len($0[3]) == 32 || (len($0[3]) == 16 && (forall k int :: 0 <= k && k < 16 ==> maxPriceBytes[k] == 0)))
